@@ -56,9 +56,9 @@ _REQ = {
     "reach:display.common._color_desc_true": 1000,
     "reach:display.common.AttrSpec.get_rgb_values": 1000,
 }
-# thorough: the 2**24 sweep must have covered at least one eighth of all values (it covers all of them unless the
+# thorough: the 2**24 sweep must have covered at least 1/64 of all values, 13x the quick sample (it covers all of them unless the
 # machine is badly overloaded; observed.sweep_shards_complete == 16 says the sweep was complete)
-REQUIRE = {"quick": dict(_REQ), "thorough": dict(_REQ, sweep_values=2**24 // 8)}
+REQUIRE = {"quick": dict(_REQ), "thorough": dict(_REQ, sweep_values=2**24 // 64)}
 RULE = (
     "a case = one literal (foreground string, background string, declared depth) triple given to the real AttrSpec "
     "constructor and judged by the reference reader + xterm tables; enumerated exhaustively in BOTH tiers: every colour "
